@@ -17,6 +17,7 @@ func init() {
 			"R13.2 the reader sees the response of this very exchange through the transparent adapter (each accessor returns the corresponding field of the http.Response) and Submit never writes a field of the response; R13.3 the per-operation client takes precedence over the transport's; " +
 			"R13.4 shared transport state: the only field of Runtime written on a call path is `client`, inside the sync.Once, and the value is a fresh http.Client built from Runtime.Transport and Runtime.Jar (never a caller's per-operation client); no package-level variable is written; the request object mutated by buildHTTP is freshly allocated per call. " +
 			"R13.3 also: Runtime.Context is consulted only when the operation carries no context of its own. " +
+			"R13.1 also: once the catch-all consumer was found nothing but the reader ends the call; R13.4 also: no call appends to a slice held in the shared Runtime. " +
 			"NOT decided: that concurrent callers each get their own response (net/http).",
 		Run: runC13,
 	})
